@@ -1600,7 +1600,12 @@ class Models:
     def b_numpy_nan_to_num(self, ip, a, kw, node):
         return ip.schema.nan_to_num(ip, a[0], kw)
 
+    def b_numpy_where(self, ip, a, kw, node):
+        return self._xhook(ip, "where", a, kw)
+
     def b_numpy_clip(self, ip, a, kw, node):
+        if type(a[0]).__name__ == "XArr":
+            return self._xhook(ip, "clip", a, kw)
         X = self.as_seq(a[0])
         lo = a[1] if len(a) > 1 else kw.get("a_min")
         hi = a[2] if len(a) > 2 else kw.get("a_max")
